@@ -1003,6 +1003,15 @@ def m_index(I, st, info, args, depth):
                             else:
                                 res.append((s5, "panic", ("str slice", info["fn"], info["ln"])))
                         continue
+                    if info["tdef"].endswith("index_mut"):
+                        bp = I.resolve(s4, args[0])
+                        g = 0
+                        while isinstance(bp, Ptr) and isinstance(I.resolve(s4, I.load(s4, bp)), Ptr) and g < 4:
+                            bp = I.resolve(s4, I.load(s4, bp))
+                            g += 1
+                        if isinstance(bp, Ptr) and isinstance(I.resolve(s4, I.load(s4, bp)), Seq):
+                            res.append((s4, "return", Ptr(bp.cell, bp.path + (("range", a, b),))))
+                            continue
                     sub = Seq("%s[%r..%r]" % (s_.name, a, b), b.sub(a), kind=s_.kind if s_.kind != "array" else "bytes")
                     if s_.elems is not None and a.is_const() and b.is_const():
                         sub = Seq(sub.name, sub.length, s_.elems[a.const:b.const], None, {}, sub.kind)
@@ -1241,7 +1250,6 @@ RESULT_FORKS = [
     (r"^serde_json::value::to_value$", lambda I, st, info, args: Sym("to_value", attrs={"adt": "serde_json::value::Value"}), "serde_json::Error"),
     (r"^ring::hkdf::Prk::expand$", lambda I, st, info, args: Struct("ring::hkdf::Okm", None, {"len": args[2]}), "ring::error::Unspecified"),
     (r"^ring::hkdf::Okm::<'a, L>::fill$|^ring::hkdf::Okm::<'_, L>::fill$", lambda I, st, info, args: UNIT, "ring::error::Unspecified"),
-    (r"^ring::rand::SecureRandom::fill$", lambda I, st, info, args: UNIT, "ring::error::Unspecified"),
 ]
 for _pat, _mk, _err in RESULT_FORKS:
     def _make(mk, errn, pat):
@@ -1524,3 +1532,19 @@ def displayed(I, st, events):
         else:
             out.append(x)
     return [p for p in out if p != ""]
+
+
+@model(r"^ring::rand::SecureRandom::fill$")
+def m_rng_fill(I, st, info, args, depth):
+    """Ok: the destination (whatever part of a buffer the pointer designates) now holds fresh CSPRNG output"""
+    dst = I.resolve(st, args[1])
+    cur = seq_of(I, st, args[1])
+    s2 = st.clone()
+    s2.cond.append("rng fill ok")
+    n = s2.facts.get("nfill", 0)
+    s2.facts["nfill"] = n + 1
+    if isinstance(dst, Ptr):
+        I.store_to(s2, dst, Seq("random#%d" % n, cur.length, None, None, {"random": True}, cur.kind))
+    s2.events.append(("rng_fill", repr(cur.length)))
+    st.cond.append("rng fill fails")
+    return [(s2, "return", ok(UNIT)), (st, "return", err(Sym("ring::error::Unspecified")))]
